@@ -1,6 +1,6 @@
-(* C16 -- Line endings and reserved control characters (partial).  Property theorems only. *)
+(* C16 -- Line endings and reserved control characters.  Property theorems only. *)
 From Rimu Require Import Base Regex RegexParse Str Types Tables Guards State Inline Block
-  Frame FrameBlock FrameInst OptionsLemmas MiscLemmas Lines.
+  Frame FrameBlock FrameInst OptionsLemmas MiscLemmas Lines RegexSem MatchLemmas Placeholder.
 
 (* the reader treats U+0000..U+0002 as blanks: a source and its blanked version give the same reader *)
 Theorem C16_blanked : forall text, mk_reader (blank_reserved text) = mk_reader text.
@@ -41,6 +41,36 @@ Theorem C16_render_recode : forall n ls ts ts' o s,
   api_render n (encode ls ts) o s = api_render n (encode ls ts') o s.
 Proof. exact render_recode. Qed.
 Print Assumptions C16_render_recode.
+
+(* the placeholder protocol of the inline renderer: for text free of the reserved code points (what the reader
+   delivers) and definitions / replacement option free of them, every placeholder is resolved -- the saved
+   fragments are popped exactly, never from an empty stack -- and no reserved code point is left in the result;
+   for every fuel, every environment and every text *)
+Theorem C16_placeholders_resolved : forall s n src, env_ok s -> rfree src ->
+  match spans_render n s src with
+  | Ok (out, _) => rfree out
+  | Raise e => e <> ExPopEmpty
+  | Fuel => True
+  end.
+Proof. exact placeholder_protocol. Qed.
+Print Assumptions C16_placeholders_resolved.
+
+(* the shape of a quote match the protocol relies on: optional backslashes, a defined quote, the quoted text, the same quote *)
+Theorem C16_quote_match_shape : forall qs text m, match_spec (quotesRe qs) text m ->
+  exists bs q body, m_groups m = [Some (bs ++ q ++ body ++ q); Some q; Some body] /\
+                    allc (fun x => x = 92) bs /\ In q (map q_quote qs).
+Proof. exact quote_decomp. Qed.
+Print Assumptions C16_quote_match_shape.
+
+(* the hypotheses hold of the default definitions *)
+Example C16_ex_env : env_okb (ienv_of (document_init S0)) = true.
+Proof. vm_compute. reflexivity. Qed.
+
+Example C16_ex_protocol :
+  match spans_render 20 (ienv_of (document_init S0)) $"a *b* `<i>` <joe@x.y> c" with
+  | Ok (out, _) => str_eqb out $"a <em>b</em> <code>&lt;i&gt;</code> <a href=""mailto:joe@x.y"">joe@x.y</a> c"
+  | _ => false end = true.
+Proof. vm_compute. reflexivity. Qed.
 
 Example C16_ex_lines : split_lines (encode [[97]; [98]; []; [99]] [TCRLF; TLF; TCR]) = [[97]; [98]; []; [99]].
 Proof. vm_compute. reflexivity. Qed.
